@@ -236,6 +236,36 @@ func (g *Gen) callInner(in ssa.Instruction, c *ssa.CallCommon, rt types.Type) Va
 				}
 				g.heap = g.heap.clone()
 				g.heapSet(g.heap, hn, "(Array Int Bool)", "(store "+cur+" "+p.Idx[0]+" "+val+")")
+				if val == "true" && len(g.fc.RelockHavoc) > 0 {
+					// interference at re-acquisition (track-locks relock-havoc): if this mutex was acquired before on
+					// this path, the listed heaps take arbitrary contents
+					an := "held:acq:" + p.Prefix
+					acq := g.heapGet(g.heap, an, "(Array Int Bool)")
+					was := "(select " + acq + " " + p.Idx[0] + ")"
+					if g.entryAcq == nil {
+						g.entryAcq = map[string]bool{}
+					}
+					if !g.entryAcq[an] {
+						// no acquisition has happened before the function's first instruction
+						g.entryAcq[an] = true
+						g.assume("true", "(forall ((i Int)) (! (not (select "+g.heapGet(g.heap0, an, "(Array Int Bool)")+" i)) :pattern ((select "+g.heapGet(g.heap0, an, "(Array Int Bool)")+" i))))")
+					}
+					var names []string
+					for n := range g.heapSorts {
+						names = append(names, n)
+					}
+					sort.Strings(names)
+					for _, n := range names {
+						if !g.relockHeap(n) {
+							continue
+						}
+						curH := g.heapGet(g.heap, n, g.heapSorts[n])
+						fresh := g.freshHeap("Hr:", n, g.heapSorts[n])
+						g.heapSet(g.heap, n, g.heapSorts[n], g.define("relock", g.heapSorts[n], ite(was, fresh, curH)))
+					}
+					g.heapSet(g.heap, an, "(Array Int Bool)", "(store "+acq+" "+p.Idx[0]+" true)")
+					g.addAssumption("relock-havoc: when a mutex is re-acquired the heaps of " + strings.Join(g.fc.RelockHavoc, ", ") + " take arbitrary contents (interference by other goroutines between critical sections)")
+				}
 				g.addAssumption("track-locks: Lock/Unlock only set a ghost held bit (mutual exclusion itself is assumed); code without contract called in between is assumed not to release or take the caller's locks")
 				return Val{K: kUntyped}
 			}
